@@ -6,57 +6,86 @@ import random
 
 import num_values as nv
 
-FORMS_INT = ["assign", "ret", "arg", "syn", "paren", "tuple", "array", "ct_var", "ct_expr", "ct_tuple", "ct_list", "ct_ret"]
-FORMS_NAT = ["assign", "ret", "arg", "paren", "tuple", "array", "ct_var", "ct_expr", "ct_tuple", "ct_list", "ct_ret"]
+SCALAR_FORMS = ["assign", "ret", "arg", "syn", "paren", "ct_var", "ct_expr", "ct_ret"]
+SCALAR_FEW = ["assign", "ret", "ct_var"]
+# constants with several elements: the value under test sits at element position pos (0 = first,
+# 1 = middle, 2 = last, in flattened order), the other elements are the in-range fillers 1 and 2
+CONTAINER_FORMS = ["tuple", "array", "ct_tuple", "ct_list", "ntuple", "ct_ntuple"]
+FILL = [1, 2]
 
 
 def lit(v: int) -> str:
     return str(v) if v >= 0 else f"-{-v}"
 
 
-def program(v: int, ty: str, form: str) -> tuple[str, int] | None:
-    """-> (source, minus) or None when the form does not apply; minus = 1 when the value is written
-    as a negated literal (folded by the CFG builder)"""
-    head = f"V = {v}\n@guppy\ndef g(x: {ty}) -> {ty}:\n    return x\n@guppy\ndef f() -> {ty}:\n"
+def elements(v: int, pos: int) -> list[int]:
+    els = list(FILL)
+    els.insert(pos, v)
+    return els
+
+
+def program(v: int, ty: str, form: str, pos: int = 0):
+    """-> (source, elements, observed index) or None when the form does not apply. A negative element of
+    a literal form is written as a negated literal (folded by the CFG builder)."""
     tail = '    result("v", x)\n    return x\n'
+    if form in CONTAINER_FORMS:
+        els = elements(v, pos)
+        a, b, c = els
+        head = f"V = ({a}, {b}, {c})\nW = [{a}, {b}, {c}]\nN = (({a}, {b}), {c})\n@guppy\ndef f() -> {ty}:\n"
+        idx = f"[{pos}]"
+        nidx = "[1]" if pos == 2 else f"[0][{pos}]"
+        if form == "tuple":
+            body = f"    t: tuple[{ty}, {ty}, {ty}] = ({lit(a)}, {lit(b)}, {lit(c)})\n    x = t{idx}\n"
+        elif form == "array":
+            body = f"    xs: array[{ty}, 3] = array({lit(a)}, {lit(b)}, {lit(c)})\n    x = xs{idx}\n"
+        elif form == "ct_tuple":
+            body = f"    t: tuple[{ty}, {ty}, {ty}] = comptime(V)\n    x = t{idx}\n"
+        elif form == "ct_list":
+            body = f"    xs: frozenarray[{ty}, 3] = comptime(W)\n    x = xs{idx}\n"
+        elif form == "ntuple":
+            body = f"    t: tuple[tuple[{ty}, {ty}], {ty}] = (({lit(a)}, {lit(b)}), {lit(c)})\n    x = t{nidx}\n"
+        else:
+            body = f"    t: tuple[tuple[{ty}, {ty}], {ty}] = comptime(N)\n    x = t{nidx}\n"
+        minus = form in ("tuple", "array", "ntuple")
+        return head + body + tail, [(e, 1 if (minus and e < 0) else 0) for e in els], pos
+    head = f"V = {v}\n@guppy\ndef g(x: {ty}) -> {ty}:\n    return x\n@guppy\ndef f() -> {ty}:\n"
     minus = 1 if v < 0 else 0
     if form == "assign":
-        return head + f"    x: {ty} = {lit(v)}\n" + tail, minus
+        return head + f"    x: {ty} = {lit(v)}\n" + tail, [(v, minus)], 0
     if form == "ret":
-        return head + f"    return {lit(v)}\n", minus
+        return head + f"    return {lit(v)}\n", [(v, minus)], 0
     if form == "arg":
-        return head + f"    x = g({lit(v)})\n" + tail, minus
+        return head + f"    x = g({lit(v)})\n" + tail, [(v, minus)], 0
     if form == "syn":
-        return head + f"    x = {lit(v)}\n" + tail, minus
+        if ty != "int":
+            return None
+        return head + f"    x = {lit(v)}\n" + tail, [(v, minus)], 0
     if form == "paren":
         if v >= 0:
             return None
-        return head + f"    x: {ty} = -({-v})\n" + tail, 1
-    if form == "tuple":
-        return head + f"    t: tuple[{ty}, int] = ({lit(v)}, 7)\n    x = t[0]\n" + tail, minus
-    if form == "array":
-        return head + f"    xs: array[{ty}, 2] = array({lit(v)}, 1)\n    x = xs[0]\n" + tail, minus
+        return head + f"    x: {ty} = -({-v})\n" + tail, [(v, 1)], 0
     if form == "ct_var":
-        return head + f"    x: {ty} = comptime(V)\n" + tail, 0
+        return head + f"    x: {ty} = comptime(V)\n" + tail, [(v, 0)], 0
     if form == "ct_expr":
-        return head + f"    x: {ty} = comptime(({v - 1}) + 1)\n" + tail, 0
-    if form == "ct_tuple":
-        return head + f"    t: tuple[{ty}, int] = comptime((V, 7))\n    x = t[0]\n" + tail, 0
-    if form == "ct_list":
-        return head + f"    xs: frozenarray[{ty}, 2] = comptime([V, 1])\n    x = xs[0]\n" + tail, 0
+        return head + f"    x: {ty} = comptime(({v - 1}) + 1)\n" + tail, [(v, 0)], 0
     if form == "ct_ret":
-        return head + "    return comptime(V)\n", 0
+        return head + "    return comptime(V)\n", [(v, 0)], 0
     raise ValueError(form)
 
 
-def values(tier: str, seed: int) -> list[int]:
-    rng = random.Random(f"C17:{seed}")
+def anchor_values(tier: str) -> list[int]:
     vs = set()
     deltas = (0, 1, 2) if tier == "quick" else (0, 1, 2, 3, 7)
     for base in (-(1 << 63), (1 << 63) - 1, (1 << 64) - 1, 0):
         for d in deltas:
             vs.add(base + d)
             vs.add(base - d)
+    return sorted(vs)
+
+
+def values(tier: str, seed: int) -> list[int]:
+    rng = random.Random(f"C17:{seed}")
+    vs = set(anchor_values(tier))
     pows = (31, 32, 62, 63, 64, 65, 70) if tier == "quick" else range(1, 71)
     for k in pows:
         vs.add(1 << k)
@@ -64,23 +93,30 @@ def values(tier: str, seed: int) -> list[int]:
         if tier != "quick":
             vs.add((1 << k) - 1)
             vs.add(-(1 << k) - 1)
-    n = 10 if tier == "quick" else 600
-    while len(vs) < (52 if tier == "quick" else 460):
+    while len(vs) < (44 if tier == "quick" else 400):
         bits = rng.choice([8, 30, 53, 62, 63, 64, 64, 65, 66, 72, 80])
         vs.add(rng.getrandbits(bits) * rng.choice([1, -1]))
-        n -= 1
     return sorted(vs)
 
 
 def cases(tier: str, seed: int) -> list[dict]:
+    """Boundary values (anchors) take every form and, in constants with several elements, EVERY element
+    position; the other values take every container form at one position (rotating) and, in the quick
+    tier, a few scalar forms."""
     out = []
-    for v in values(tier, seed):
-        for ty, forms in (("int", FORMS_INT), ("nat", FORMS_NAT)):
-            for form in forms:
-                p = program(v, ty, form)
+    anchors = set(anchor_values(tier))
+    for n, v in enumerate(values(tier, seed)):
+        full = v in anchors or tier != "quick"
+        for ty in ("int", "nat"):
+            todo = [(f, 0) for f in (SCALAR_FORMS if full else SCALAR_FEW)]
+            for k, f in enumerate(CONTAINER_FORMS):
+                todo += [(f, p) for p in ((0, 1, 2) if v in anchors else ((n + k) % 3,))]
+            for form, pos in todo:
+                p = program(v, ty, form, pos)
                 if p is None:
                     continue
-                out.append({"id": len(out), "v": v, "ty": ty, "form": form, "src": p[0], "minus": p[1]})
+                out.append({"id": len(out), "v": v, "ty": ty, "form": form if form not in CONTAINER_FORMS else f"{form}@{pos}",
+                            "src": p[0], "els": p[1], "pos": p[2]})
     return out
 
 
